@@ -101,33 +101,29 @@ theorem xml_lex_roundtrip : type_of% @Verif.Proofs.C09Xml.xml_lex_roundtrip := @
     from its own serialisation -/
 theorem xml_lex_sound : type_of% @Verif.Proofs.C09Xml.xml_lex_sound := @Verif.Proofs.C09Xml.xml_lex_sound
 
-/-- **XML, bytes level, no guard**: for every byte string the independent tokeniser accepts, the output of the model of
+/-- **XML, bytes level**: for every byte string the independent tokeniser accepts, the output of the model of
     `xml.Minify` on its tokens is accepted again and re-tokenises to exactly the intended stream.  NOTE the front end here is
     the SPECIFICATION tokeniser (PI data is one raw item); the real dependency lexer splits PI data into pseudo-attributes
-    and deviates on DOCTYPE/PI corner cases (K-C09-Xml-1, -4, -5) — for streams of the real lexer's shape use the guarded
-    `xml_output_relexes_partial` -/
+    and deviates on DOCTYPE (K-C09-Xml-4, open) and on `>` inside PI data (K-C06-8) — for streams of the real lexer's
+    shape use `xml_output_relexes` (full since /repo 59fe76b) -/
 theorem xml_accepted_in_accepted_out : type_of% @Verif.Proofs.C09Xml.xml_accepted_in_accepted_out :=
   @Verif.Proofs.C09Xml.xml_accepted_in_accepted_out
 
 /-- every finite sequence of passes (any options) over an accepted document is defined and ends in an accepted document -/
 theorem xml_passes_defined : type_of% @Verif.Proofs.C09Xml.xml_passes_defined := @Verif.Proofs.C09Xml.xml_passes_defined
 
-/-- **XML flagship** (guard: trigger of K-C09-Xml-1): for all options and all lexer-contract streams with grammatical
+/-- **XML flagship** (full since /repo 59fe76b): for all options and all lexer-contract streams with grammatical
     tokens, the output bytes of the model of `xml.Minify` re-tokenise to exactly the emitted stream (reader's view),
     which is grammatical -/
-theorem xml_output_relexes_partial : type_of% @Verif.Proofs.C09Xml.xml_output_relexes_partial :=
-  @Verif.Proofs.C09Xml.xml_output_relexes_partial
+theorem xml_output_relexes : type_of% @Verif.Proofs.C09Xml.xml_output_relexes :=
+  @Verif.Proofs.C09Xml.xml_output_relexes
 
 /-- the stream read back has exactly the markup skeleton (tags, attributes, CDATA, DOCTYPE, PI targets) and the bytes
     of the emitted stream -/
 theorem xml_output_markup_exact : type_of% @Verif.Proofs.C09Xml.xml_output_markup_exact :=
   @Verif.Proofs.C09Xml.xml_output_markup_exact
 
-/-- the unguarded flagship statement is false: `<a><?x k="?&gt;"?></a>` → `<a><?x k="?>"?></a>` (K-C09-Xml-1) -/
-theorem xml_output_relexes_counterexample : type_of% @Verif.Proofs.C09Xml.xml_output_relexes_counterexample :=
-  @Verif.Proofs.C09Xml.xml_output_relexes_counterexample
-
-/-- **XML second pass** (same guard): the stream read back from the output satisfies all hypotheses of the C06 and
+/-- **XML second pass** (full): the stream read back from the output satisfies all hypotheses of the C06 and
     C09 theorems again; the output of a second pass (any options) re-tokenises to its intended stream -/
 theorem xml_second_pass_defined : type_of% @Verif.Proofs.C09Xml.xml_second_pass_defined :=
   @Verif.Proofs.C09Xml.xml_second_pass_defined
@@ -139,48 +135,34 @@ theorem xml_idempotent_counterexample : type_of% @Verif.Proofs.C09Xml.xml_idempo
 /-- **SVG `bracketWriter`**: `bw.n` is the number of `]` at the end of everything written -/
 theorem xml_svg_bracket_count : type_of% @Verif.Proofs.C09Xml.svg_bracket_count := @Verif.Proofs.C09Xml.svg_bracket_count
 
-/-- **SVG text branch**: for every `bw.n` and grammatical text token the written bytes are well-formed character
-    data and complete no `]]>` (outside `style` / without a CSS minifier; inside `style` these bytes go to the
-    sub-minifier) -/
+/-- **SVG text branch**, every sub-minifier function: for every `bw.n` and grammatical text token the written bytes have
+    no `<`, no bare `&`, complete no `]]>` (the host checks the sub-minifier's result since d582c28); full `WfText` when
+    the bytes do not come from the sub-minifier -/
 theorem xml_svg_text_wellformed : type_of% @Verif.Proofs.C09Xml.svg_text_wellformed :=
   @Verif.Proofs.C09Xml.svg_text_wellformed
 
-/-- SVG text inside `style`, by contract `SubTextOk` on the sub-minifier -/
-theorem xml_svg_text_wellformed_sub : type_of% @Verif.Proofs.C09Xml.svg_text_wellformed_sub :=
-  @Verif.Proofs.C09Xml.svg_text_wellformed_sub
-
-/-- the contract is needed: a sub-minifier that only removes spaces creates `]]>` (K-C09-Xml-2 on the real code) -/
-theorem xml_svg_style_text_counterexample : type_of% @Verif.Proofs.C09Xml.svg_style_text_counterexample :=
-  @Verif.Proofs.C09Xml.svg_style_text_counterexample
-
-/-- **SVG CDATA branch**: text path safe for every sub-minifier with legal output; kept path a well-formed CDATA
-    section outside `style`, inside `style` by contract `NoCdEndOut` -/
+/-- **SVG CDATA branch**, every sub-minifier function with legal output: text path safe; a kept section is a
+    well-formed CDATA section (a result containing `]]>` is not used since d582c28) -/
 theorem xml_svg_cdata_wellformed : type_of% @Verif.Proofs.C09Xml.svg_cdata_wellformed :=
   @Verif.Proofs.C09Xml.svg_cdata_wellformed
 
-/-- the contract is needed: removing spaces inside a kept `style` CDATA section creates `]]>` (K-C09-Xml-2) -/
-theorem xml_svg_cdata_kept_counterexample : type_of% @Verif.Proofs.C09Xml.svg_cdata_kept_counterexample :=
-  @Verif.Proofs.C09Xml.svg_cdata_kept_counterexample
-
 /-- **SVG attribute values**: the preprocessed value is a sequence of units; `EscapeAttrVal` of any sequence of
-    units is a well-formed literal with that normalised value -/
+    units is a well-formed literal with that normalised value; the `style` attribute for every inline sub-minifier
+    function: quoted, quote-safe, no `<`, no bare `&` -/
 theorem xml_svg_attr_wellformed : type_of% @Verif.Proofs.C09Xml.svg_attr_wellformed :=
   @Verif.Proofs.C09Xml.svg_attr_wellformed
 
-/-- `EscapeAttrVal` does not repair a sub-minifier result with a bare `&` or `<` (K-C09-Xml-3 on the real code) -/
-theorem xml_svg_attr_contract_needed : type_of% @Verif.Proofs.C09Xml.svg_attr_contract_needed :=
-  @Verif.Proofs.C09Xml.svg_attr_contract_needed
 /-! ## Css -/
 
 /-- **CSS, declaration writer**: for all admissible values (`valsOk`: every lexeme a closed token of its type for the
     independent tokeniser, function arguments pairwise safe), every `!important` flag and every context starting
     with a stop code point, the independent CSS Syntax 3 tokeniser reads the bytes `writeDeclaration` writes as
-    exactly the tokens it was given: nothing merges, nothing splits (guard `sepOk` = known findings K-C09-CSS-1/2) -/
+    exactly the tokens it was given: nothing merges, nothing splits (inside functions: pairs that are safe back to back or that `writeFunction` separates itself since a933f35) -/
 theorem css_writer_retokenises : type_of% @Verif.Proofs.C09Css.css_writer_retokenises :=
   @Verif.Proofs.C09Css.css_writer_retokenises
 
-/-- **CSS**: without the guard on neighbours inside functions the statement is false (`f(` `red` `10%` `)` is written
-    `f(red10%)`) -/
+/-- **CSS**: without any condition on neighbours inside functions the statement is still false for pairs the writer
+    does not test (`f(` `-` `red` `)` is written `f(-red)`; no input produces them) -/
 theorem css_writer_retokenises_counterexample : type_of% @Verif.Proofs.C09Css.css_writer_retokenises_counterexample :=
   @Verif.Proofs.C09Css.css_writer_retokenises_counterexample
 
@@ -220,10 +202,6 @@ theorem css_url_closed : type_of% @Verif.Proofs.C09Css.css_url_closed := @Verif.
 theorem css_string_closed_partial : type_of% @Verif.Proofs.C09Css.css_string_closed_partial :=
   @Verif.Proofs.C09Css.css_string_closed_partial
 
-/-- **CSS, strings**: in general `removeMarkupNewlines` changes the value: `"\31\<LF>2"` (`12`) becomes `"\312"`
-    (K-C09-CSS-11) -/
-theorem css_string_closed_counterexample : type_of% @Verif.Proofs.C09Css.css_string_closed_counterexample :=
-  @Verif.Proofs.C09Css.css_string_closed_counterexample
 /-! ## HTML -/
 
 /-- **HTML attribute values**: the bytes of `EscapeAttrVal` are read by the standard's tokenizer as one value in the form
@@ -251,7 +229,7 @@ theorem html_start_tag_step : type_of% @Verif.Proofs.C09Html.html_start_tag_step
   @Verif.Proofs.C09Html.html_start_tag_step
 
 /-- **HTML raw-text elements** (script, style, iframe, textarea): the content the model writes does not end the element
-    early and the end tag ends it; guard: no `<!--` in a script (K-C09-HTML-8); contract `SubKeeps` on the sub-minifier -/
+    early and the end tag ends it; guard: no `<!--` in a script; NO hypothesis on the sub-minifier (html.go re-lexes its result, 1557146) -/
 theorem html_rawtext_end_stable_partial : type_of% @Verif.Proofs.C09Html.html_rawtext_end_stable_partial :=
   @Verif.Proofs.C09Html.html_rawtext_end_stable_partial
 
@@ -259,7 +237,7 @@ theorem html_rawtext_end_stable_partial : type_of% @Verif.Proofs.C09Html.html_ra
 theorem html_rawtext_end_stable_counterexample : type_of% @Verif.Proofs.C09Html.html_rawtext_end_stable_counterexample :=
   @Verif.Proofs.C09Html.html_rawtext_end_stable_counterexample
 
-/-- **HTML comments**: every comment written is one comment token; guard K-C09-HTML-1, contract K-C09-HTML-3 -/
+/-- **HTML comments**: every comment written is one comment token; guard K-C09-HTML-1; no contract on the recursive result (3c66722) -/
 theorem html_comment_closed_partial : type_of% @Verif.Proofs.C09Html.html_comment_closed_partial :=
   @Verif.Proofs.C09Html.html_comment_closed_partial
 
@@ -288,9 +266,18 @@ theorem html_output_retokenises_lexshape_counterexample :
 theorem html_text_lt_stays_escaped : type_of% @Verif.Proofs.C09Html.html_text_lt_stays_escaped :=
   @Verif.Proofs.C09Html.html_text_lt_stays_escaped
 
-/-- html.go's reference decoding creates a tag from the text `<&#98;>` (K-C09-HTML-10) -/
-theorem html_text_safe_not_preserved : type_of% @Verif.Proofs.C09Html.html_text_safe_not_preserved :=
-  @Verif.Proofs.C09Html.html_text_safe_not_preserved
+/-- **HTML text, positive** (after 6635adc; replaces the K-C09-HTML-10 counterexample): a text whose `<` open nothing is
+    written so that its `<` still open nothing -/
+theorem html_text_safe_preserved : type_of% @Verif.Proofs.C09Html.html_text_safe_preserved :=
+  @Verif.Proofs.C09Html.html_text_safe_preserved
+
+/-- the re-lex check of html.go (1557146) implies "no appropriate end tag" of the standard outside escaped sections -/
+theorem html_relex_no_end_tag : type_of% @Verif.Proofs.C09Html.html_relex_no_end_tag :=
+  @Verif.Proofs.C09Html.html_relex_no_end_tag
+
+/-- … and not inside them: `<!--<script-x></script> y` passes the re-lex, the standard ends the script at the first `</script>` -/
+theorem html_relex_script_counterexample : type_of% @Verif.Proofs.C09Html.html_relex_script_counterexample :=
+  @Verif.Proofs.C09Html.html_relex_script_counterexample
 
 /-- **HTML second pass**: on every token stream the model returns bytes or `ext missing` -/
 theorem html_second_pass_defined : type_of% @Verif.Proofs.C09Html.html_second_pass_defined :=
@@ -333,9 +320,12 @@ theorem js_output_no_markup : type_of% @Verif.Proofs.C09JsEmbed.js_output_no_mar
 theorem js_script_embed_keeps : type_of% @Verif.Proofs.C09JsEmbed.js_script_embed_keeps :=
   @Verif.Proofs.C09JsEmbed.js_script_embed_keeps
 
-/-- **Embedded languages, composed**: an HTML `script` element whose payload is minified by the JS fragment printer is
-    read back by the HTML tokenizer as character tokens equal to the printer's output byte for byte, followed by the
-    element's end tag -/
+/-- **Embedded languages, composed** (strong form): for an HTML `script` element whose payload is minified by the JS
+    fragment printer the HTML model writes exactly the printer's output (the host's re-lex check `rawTextEndsAtEnd`
+    never falls back to the original payload, lemma `rawTextEndsAtEnd_noBad`: text without `</` and `<!--` ends at its
+    end), and the HTML tokenizer reads it back as character tokens equal to it byte for byte, followed by the element's
+    end tag.  Hypotheses: model state inside `script` (`dropEnd = false`, `textMode = 1`, `rawTag = "script"`), payload
+    token without end tag of `script` and without `<!--`; nothing is assumed about the parser function -/
 theorem html_script_with_js_fragment : type_of% @Verif.Proofs.C09JsEmbed.html_script_with_js_fragment :=
   @Verif.Proofs.C09JsEmbed.html_script_with_js_fragment
 
@@ -344,7 +334,9 @@ theorem html_script_with_js_fragment : type_of% @Verif.Proofs.C09JsEmbed.html_sc
 /-- **K-C09-3 on the model of the CSS declaration writer**: the value tokens `<` `/` `style` `>` — none contains `</style` —
     are written `</style >`, an appropriate end tag of the enclosing HTML `style` element: the `SubKeeps` contract of
     `html_rawtext_end_stable_partial` is false for the CSS writer (for the JS-fragment printer it is a theorem:
-    `js_script_embed_keeps`).  Real code: `<style>a{b:< /style >}</style><p>x</p>` ↦ `<style>a{b:</style >}</style><p>x`. -/
+    `js_script_embed_keeps`).  That is why the host has to enforce the contract: since /repo 1557146 html.go re-reads
+    `<tag>` + result + `</tag>` and keeps the original payload unless it is read back as one text token (before:
+    `<style>a{b:< /style >}</style><p>x</p>` ↦ `<style>a{b:</style >}</style><p>x`, K-C09-3, now a regression input). -/
 theorem css_writer_creates_style_end_tag : type_of% @Verif.Proofs.C09Embed.css_writer_creates_style_end_tag :=
   @Verif.Proofs.C09Embed.css_writer_creates_style_end_tag
 
